@@ -28,7 +28,8 @@ RULE = ('(a) traceback texts with 0-12 frames, any subset lacking source lines (
         'spaces / non-ASCII / <string>, names <module> <lambda> <genexpr>, dotted or bare type names, messages '
         'empty / one line / multi-line / containing ": " / leading spaces; (b) generated modules raising built-in '
         'and user-defined (module-level and nested) exception classes through call chains of depth 1-25 over '
-        'functions, methods, lambdas, generators, exec\'d code without source and non-ASCII file names; distinct = '
+        'functions, methods, lambdas, generators, comprehensions, exec\'d code without source, frames that catch and '
+        're-raise the same exception object, non-ASCII file names, and files edited in place between two runs; distinct = '
         'distinct texts / (program shape, exception class, message class) combinations')
 ASSUMPTIONS = [
     'texts use the interpreter layout without the final newline (the convention of the repository\'s own '
@@ -131,7 +132,8 @@ def pkg_dir():
     return _pkg_dir
 
 
-LINKS = ['func', 'method', 'lambda', 'generator', 'exec', 'nested', 'staticmethod', 'listcomp']
+LINKS = ['func', 'method', 'lambda', 'generator', 'exec', 'nested', 'staticmethod', 'listcomp', 'reraise-saved',
+         'reraise-in-except']
 EXC_DEFS = '''
 class ModErr(Exception):
     pass
@@ -159,7 +161,9 @@ def build_module(c):
     """Write a module whose run() raises through the requested chain; returns module name."""
     _pkg_n[0] += 1
     name = ('vmod%d_%d' % (os.getpid(), _pkg_n[0])) + ('_ünï' if c.get('unicode_name') else '')
-    src = ['# generated', EXC_DEFS, 'MSG = %r' % MSG_CLASSES[c['msg']], '']
+    if c.get('_reuse_name'):
+        name = c['_reuse_name']
+    src = ['# generated' + c.get('_variant', ''), EXC_DEFS, 'MSG = %r' % MSG_CLASSES[c['msg']], '']
     exc = EXC_EXPR[c['exc']]
     if c['exc'] == 'ZeroDivisionError':
         bottom = '1 / 0'
@@ -186,6 +190,14 @@ def build_module(c):
                     '    return next(gen%d(x))' % i, '']
         elif link == 'listcomp':
             src += ['def %s(x):' % fn, '    return [%s(v) for v in (x,)][0]' % prev, '']
+        elif link == 'reraise-saved':
+            # the same exception object raised again later from the same frame: that frame is in the traceback
+            # twice, with two different line numbers (no chaining is involved)
+            src += ['def %s(x):' % fn, '    try:', '        return %s(x)' % prev, '    except Exception as exc:',
+                    '        saved = exc', '    y = x', '    raise saved', '']
+        elif link == 'reraise-in-except':
+            src += ['def %s(x):' % fn, '    try:', '        return %s(x)' % prev, '    except Exception as exc:',
+                    '        raise exc', '']
         elif link == 'nested':
             src += ['def %s(x):' % fn, '    def inner(z):', '        return %s(z)' % prev, '    return inner(x)', '']
         else:   # exec'd code: frames without source
@@ -203,6 +215,16 @@ def strip_markers(text):
 
 
 def check_live(c, st):
+    if c.get('rerun') and not c.get('_reuse_name'):
+        # edit-and-rerun: the same file path holds a first program, is rendered once, then is rewritten with
+        # different source at the same line numbers; the second traceback must show the NEW lines
+        nm = 'vrerun%d_%d' % (os.getpid(), _pkg_n[0] + 1)
+        first = dict(c, _reuse_name=nm, _variant=' first version', msg='plain', exc='ValueError')
+        r1 = check_live(first, st)
+        if r1:
+            return r1
+        chain2 = [{'func': 'method', 'method': 'func'}.get(x, x) for x in c['chain']]
+        return check_live(dict(c, chain=chain2, _reuse_name=nm, _variant=' second version, edited in place'), st)
     tbu = common.load('tbutils')
     name = build_module(c)
     importlib.invalidate_caches()
@@ -265,7 +287,7 @@ def gen_live(r):
     depth = r.choice([0, 1, 2, 3, 5, 8, 25])
     chain = [r.choice(LINKS) for _ in range(depth)]
     return {'kind': 'live', 'chain': chain, 'exc': r.choice(list(EXC_EXPR)), 'msg': r.choice(list(MSG_CLASSES)),
-            'unicode_name': r.random() < 0.15}
+            'unicode_name': r.random() < 0.15, 'rerun': r.random() < 0.2}
 
 
 def check(c, st):
